@@ -15,7 +15,7 @@ func init() {
 }
 
 var (
-	c09Ranges  = []time.Duration{time.Second, 2 * time.Second, 3 * time.Second, 5 * time.Second, 10 * time.Second, 500 * time.Millisecond, 1500 * time.Millisecond}
+	c09Ranges  = []time.Duration{time.Second, 2 * time.Second, 3 * time.Second, 5 * time.Second, 10 * time.Second, 500 * time.Millisecond, 1500 * time.Millisecond, 45 * time.Second, 2 * time.Minute}
 	c09Offsets = []time.Duration{0, 0, 0, time.Second, 2 * time.Second, 5 * time.Second, 500 * time.Millisecond}
 	c09Steps   = []time.Duration{500 * time.Millisecond, time.Second, 2 * time.Second, 3 * time.Second, 5 * time.Second, 10 * time.Second}
 	c09Fns     = []string{"count_over_time", "rate", "bytes_over_time", "bytes_rate", "sum_over_time", "avg_over_time", "min_over_time", "max_over_time",
@@ -93,7 +93,8 @@ func genRangeQ(r *vk.RNG, msg bool) *RangeQ {
 			if r.Chance(1, 2) {
 				q.Grouped = true
 				if r.Bool() {
-					q.Group = vk.Pick(r, [][]string{{"app"}, {"g"}, {"app", "g"}, {"job"}, {"nosuch", "app"}})
+					// (an empty list is legal: `by ()` keeps no label, all samples form one series)
+					q.Group = vk.Pick(r, [][]string{{"app"}, {"g"}, {"app", "g"}, {"job"}, {"nosuch", "app"}, {}, {"nosuch"}})
 				} else {
 					q.Without = true
 					q.Group = []string{"v", "d", "s", "msg", "pad"}
